@@ -178,6 +178,14 @@ func (ex *c12Exec) shouldInline(fi *FuncInfo, args []c12Val) bool {
 		anchorType(fi.Pkg.TypesInfo.TypeOf(fi.Decl.Recv.List[0].Type)) == ex.recvType {
 		return true
 	}
+	// a function that is handed a pointer into the receiver's state (`applySGR(params, &vt.cursor.Style)`) acts on
+	// that state exactly as a method of the receiver would: it is followed whatever its size (the step and depth
+	// budgets still apply)
+	for _, a := range args {
+		if r, isRef := a.(c12Ref); isRef && r.Path != "" {
+			return true
+		}
+	}
 	return c12StmtCount(fi.Decl.Body) <= c12InlineSz
 }
 
